@@ -304,16 +304,21 @@ func (ea *escapeAnalysis) deriveAsync() {
 	}
 }
 
-func ruleL3d(c *Ctx) {
+func ruleL3d(c *Ctx) { ruleL3dFor(c, nil, 20) }
+
+// ruleL3dFor restricts the rule to the owner packages given (nil: all).
+func ruleL3dFor(c *Ctx, only map[string]bool, floor int) {
 	la := c.Locks()
 	ea := &escapeAnalysis{c: c, la: la, async: map[*types.Func]map[int]bool{}, resTaint: map[*Func]*taint{}}
 	ea.deriveAsync()
 	R := c.R
-	R.Rule("L3d", "a reference derived from a guarded field (its address, a method value bound to it, a pointer/func/iterator obtained from it) is never returned or stored in a returned value by the owner's methods, except as the receiver of .WithLock(<owner mutex>)", 20)
+	R.Rule("L3d", "a reference derived from a guarded field (its address, a method value bound to it, a pointer/func/iterator obtained from it) is never returned or stored in a returned value by the owner's methods, except as the receiver of .WithLock(<owner mutex>)", floor)
 	R.Rule("L3b", "a guarded field is never handed to a callee that reads it on another goroutine (no WithLock wrapper can cover that goroutine)", 1)
 	pkgs := map[string]bool{}
 	for id := range la.guards {
-		pkgs[id.Pkg] = true
+		if only == nil || only[id.Pkg] {
+			pkgs[id.Pkg] = true
+		}
 	}
 	var funcs []*Func
 	for _, f := range c.P.Funcs {
